@@ -598,6 +598,9 @@ struct Collector<'a> {
   sites: Vec<Site>,
   uses: &'a mut Uses,
   insts: &'a mut Insts,
+  /// class -> modules (other than the declaring one) in which a member of an INSTANCE of the class is used (a method
+  /// call, a field read, a struct / variant pattern): uses that need no import of the class name
+  leaks: &'a mut Insts,
   /// names of all methods declared by any interface of the program
   iface_method_names: &'a HashSet<PStr>,
 }
@@ -846,18 +849,74 @@ impl<'a> Collector<'a> {
     }
   }
 
-  fn annot(&mut self, x: &annotation::T) {
+  /// an instance of a class of another module has one of its members used here
+  fn leak(&mut self, t: &Type) {
+    if let Type::Nominal(n) = t {
+      if !n.is_class_statics && n.module_reference != self.mref {
+        self.leaks.entry((n.module_reference, n.id)).or_default().insert(self.mref);
+      }
+    }
+  }
+
+  /// unbound-class in a type position: the annotation node `x` (at any depth of an annotation or of a call's explicit
+  /// type arguments) is replaced by a class name that occurs nowhere in the program; for `C<..>` also the head alone.
+  fn unbound_type_sites(&mut self, x: &annotation::T, ctx: &'static str, depth: usize) {
+    let sub = match (ctx, depth > 0) {
+      ("call", false) => "targ-call",
+      ("call", true) => "targ-call-nested",
+      ("let", false) => "annot-let",
+      ("let", true) => "annot-let-nested",
+      ("lambda", false) => "annot-lambda",
+      ("lambda", true) => "annot-lambda-nested",
+      ("param", false) => "annot-param",
+      ("param", true) => "annot-param-nested",
+      ("return", false) => "annot-return",
+      ("return", true) => "annot-return-nested",
+      ("field", false) => "annot-field",
+      ("field", true) => "annot-field-nested",
+      (_, false) => "annot-variant",
+      (_, true) => "annot-variant-nested",
+    };
+    let l = x.location();
+    let fresh = self.fresh_upper.to_string();
+    if let (Some((a0, b0)), Some((s, e))) = (self.range(&l, "annot"), self.text.span(&l)) {
+      if s < e && self.text.s[s..e] != fresh {
+        self.push(
+          "unbound-class",
+          sub,
+          s,
+          e,
+          fresh.clone(),
+          vec![Splice { at: a0, del: b0 - a0, ins: vec![format!("TId({fresh})("), "NoTargs".into(), ")".into()] }],
+        );
+      }
+      if let annotation::T::Id(id) = x {
+        if id.type_arguments.is_some() && self.ident_ok(&id.id.loc, id.id.name) {
+          if let Some((hs, he)) = self.text.span(&id.id.loc) {
+            self.push("unbound-class", sub, hs, he, fresh.clone(), vec![Splice { at: a0, del: 1, ins: vec![format!("TId({fresh})(")] }]);
+          }
+        }
+      }
+    }
+  }
+
+  fn annot(&mut self, x: &annotation::T, ctx: &'static str) {
+    self.annot_rec(x, ctx, 0)
+  }
+
+  fn annot_rec(&mut self, x: &annotation::T, ctx: &'static str, depth: usize) {
+    self.unbound_type_sites(x, ctx, depth);
     match x {
       annotation::T::Primitive(..) | annotation::T::Generic(..) => {}
       annotation::T::Fn(f) => {
         for p in &f.parameters.annotations {
-          self.annot(p);
+          self.annot_rec(p, ctx, depth + 1);
         }
-        self.annot(&f.return_type);
+        self.annot_rec(&f.return_type, ctx, depth + 1);
       }
       annotation::T::Id(id) => {
         for a in id.type_arguments.iter().flat_map(|t| &t.arguments) {
-          self.annot(a);
+          self.annot_rec(a, ctx, depth + 1);
         }
         let Some(top) = self.classes.get(&(id.module_reference, id.id.name)) else { return };
         let bounds: Vec<Option<PStr>> = top
@@ -901,15 +960,44 @@ impl<'a> Collector<'a> {
     }
   }
 
-  fn pat(&mut self, _p: &pattern::MatchingPattern<T>) {}
+  /// records the classes whose definition a pattern looks into (`t`: the type of the matched value when known)
+  fn pat(&mut self, p: &pattern::MatchingPattern<T>, t: Option<&T>) {
+    match p {
+      pattern::MatchingPattern::Tuple(tp) => {
+        for e in &tp.elements {
+          self.pat(&e.pattern, Some(&e.type_));
+        }
+      }
+      pattern::MatchingPattern::Object { elements, .. } => {
+        if let Some(t) = t {
+          self.leak(t);
+        }
+        for e in elements {
+          self.pat(&e.pattern, Some(&e.type_));
+        }
+      }
+      pattern::MatchingPattern::Variant(v) => {
+        self.leak(&v.type_);
+        for e in v.data_variables.iter().flat_map(|d| &d.elements) {
+          self.pat(&e.pattern, Some(&e.type_));
+        }
+      }
+      pattern::MatchingPattern::Id(..) | pattern::MatchingPattern::Wildcard { .. } => {}
+      pattern::MatchingPattern::Or { patterns, .. } => {
+        for q in patterns {
+          self.pat(q, t);
+        }
+      }
+    }
+  }
 
   fn block(&mut self, b: &expr::Block<T>) {
     for s in &b.statements {
       match s {
         expr::Statement::Declaration(d) => {
-          self.pat(&d.pattern);
+          self.pat(&d.pattern, Some(d.assigned_expression.type_()));
           if let Some(a) = &d.annotation {
-            self.annot(a);
+            self.annot(a, "let");
           }
           self.expr(&d.assigned_expression);
         }
@@ -934,7 +1022,7 @@ impl<'a> Collector<'a> {
         }
       }
       expr::IfElseCondition::Guard(p, c) => {
-        self.pat(p);
+        self.pat(p, Some(c.type_()));
         self.expr(c);
         // scope escape: a name bound by the guard's pattern is in scope in the then-branch only (spec.md 6.10.2);
         // the value of the else-branch is replaced by such a name (not otherwise mentioned there)
@@ -999,8 +1087,9 @@ impl<'a> Collector<'a> {
     inferred: &[T],
   ) {
     self.expr(obj);
+    self.leak(obj.type_());
     for a in ta.iter().flat_map(|t| &t.arguments) {
-      self.annot(a);
+      self.annot(a, "call");
     }
     let Some((a, _)) = self.range(loc, "expr") else { return };
     // unbound-member: the name is replaced by an identifier that occurs nowhere in the program
@@ -1253,7 +1342,7 @@ impl<'a> Collector<'a> {
       expr::E::Match(m) => {
         self.expr(&m.matched);
         for c in &m.cases {
-          self.pat(&c.pattern);
+          self.pat(&c.pattern, Some(m.matched.type_()));
           self.expr(&c.body);
         }
         self.match_sites(m);
@@ -1261,7 +1350,7 @@ impl<'a> Collector<'a> {
       expr::E::Lambda(l) => {
         for p in &l.parameters.parameters {
           if let Some(a) = &p.annotation {
-            self.annot(a);
+            self.annot(a, "lambda");
           }
         }
         self.expr(&l.body);
@@ -1433,9 +1522,9 @@ impl<'a> Collector<'a> {
 
   fn member_decl(&mut self, d: &ClassMemberDeclaration) {
     for p in d.parameters.parameters.iter() {
-      self.annot(&p.annotation);
+      self.annot(&p.annotation, "param");
     }
-    self.annot(&d.return_type);
+    self.annot(&d.return_type, "return");
   }
 
   /// names of the methods required by the interfaces `nodes` (transitively)
@@ -1487,12 +1576,12 @@ impl<'a> Collector<'a> {
         Toplevel::Class(c) => {
           if let Some(TypeDefinition::Struct { fields, .. }) = &c.type_definition {
             for f in fields {
-              self.annot(&f.annotation);
+              self.annot(&f.annotation, "field");
             }
           }
           if let Some(TypeDefinition::Enum { variants, .. }) = &c.type_definition {
             for a in variants.iter().flat_map(|v| v.associated_data_types.iter().flat_map(|l| &l.annotations)) {
-              self.annot(a);
+              self.annot(a, "variant");
             }
           }
           let mut required = HashSet::new();
@@ -1546,7 +1635,7 @@ impl<'a> Collector<'a> {
 
 /// private-member / private-class sites need the uses of the whole program
 fn visibility_sites(prog: &Program, skels: &HashMap<ModuleReference, (Vec<String>, HashMap<Key, (usize, usize)>, HashSet<Key>)>,
-                    uses: &Uses, insts: &Insts, iface_method_names: &HashSet<PStr>, sites: &mut Vec<Site>) {
+                    uses: &Uses, insts: &Insts, leaks: &Insts, iface_method_names: &HashSet<PStr>, sites: &mut Vec<Site>) {
   let heap = &prog.heap;
   for (m1, module) in &prog.checked {
     let m1name = m1.pretty_print(heap);
@@ -1569,6 +1658,15 @@ fn visibility_sites(prog: &Program, skels: &HashMap<ModuleReference, (Vec<String
         }
       }
       let tk = key(&t.loc(), "toplevel");
+      // a class no other module imports, but whose instances reach other modules (through public functions, fields,
+      // closures of this module) and have a method called / a field read / their shape matched there: once the class
+      // is private every such use is a use of a private class from another module (spec.md 3.4)
+      let leaked_to: BTreeSet<String> = if importers.is_empty() {
+        leaks.get(&(*m1, t.name().name)).map(|ms| ms.iter().filter(|m| *m != m1).map(|m| m.pretty_print(heap)).collect()).unwrap_or_default()
+      } else {
+        BTreeSet::new()
+      };
+      let (class_sub, importers) = if importers.is_empty() { ("class-leaked", leaked_to) } else { ("class", importers) };
       if !t.is_private() && !importers.is_empty() && !dup.contains(&tk) {
         if let (Some((a, _)), Some(s)) = (idx.get(&tk), text.off(t.loc().start)) {
           let kw = if t.is_class() { "class" } else { "interface" };
@@ -1576,7 +1674,7 @@ fn visibility_sites(prog: &Program, skels: &HashMap<ModuleReference, (Vec<String
             let head = format!("{}({},private)(", if t.is_class() { "Class" } else { "Interface" }, t.name().name.as_str(heap));
             sites.push(Site {
               kind: "private-member",
-              sub: "class",
+              sub: class_sub,
               offending: importers.iter().cloned().collect(),
               edit: *m1,
               start: s,
@@ -1730,6 +1828,7 @@ fn collect_sites(prog: &Program) -> (Vec<Site>, HashMap<ModuleReference, (Vec<St
   let (fl, fu, fm) = fresh_names(prog);
   let mut uses: Uses = HashMap::new();
   let mut insts: Insts = HashMap::new();
+  let mut leaks: Insts = HashMap::new();
   let mut sites = vec![];
   let mut order: Vec<&ModuleReference> = prog.checked.keys().collect();
   order.sort_by_key(|m| m.pretty_print(heap));
@@ -1753,12 +1852,13 @@ fn collect_sites(prog: &Program) -> (Vec<Site>, HashMap<ModuleReference, (Vec<St
       sites: vec![],
       uses: &mut uses,
       insts: &mut insts,
+      leaks: &mut leaks,
       iface_method_names: &iface_method_names,
     };
     c.module(module);
     sites.append(&mut c.sites);
   }
-  visibility_sites(prog, &skels, &uses, &insts, &iface_method_names, &mut sites);
+  visibility_sites(prog, &skels, &uses, &insts, &leaks, &iface_method_names, &mut sites);
   (sites, skels)
 }
 
